@@ -254,7 +254,8 @@ impl Serialize for TextResource {
                         filename
                     )
                 });
-                if filename.ends_with(".json") {
+                //(the text of the name: `Path::ends_with` compares whole path components)
+                if filename.to_string_lossy().ends_with(".json") {
                     let result = self.to_json_file(&filename.to_string_lossy(), self.config()); //this reinvokes this function after setting config.standoff_include
                     result.map_err(|e| serde::ser::Error::custom(format!("{}", e)))?;
                 } else {
